@@ -12,7 +12,7 @@ from vlib import *
 REPLAY_KINDS = ("cli-tree", "cli-trace")
 
 INV = {"C08": ["C08"], "C09": ["C09"], "C10": ["C10"], "C11": ["C11"], "C18": ["C18"],
-       "C16": ["C08", "C09", "C10", "C11", "C18"]}
+       "C16": ["C08", "C09", "C10", "C11", "C18"], "C12": ["C09", "C10", "C18"]}
 
 
 def cli_cfg(layouts, methods, xffs, horizon, vals, maxprep, fullgrid=False, export="none", exportn=1,
